@@ -127,8 +127,10 @@ impl Recoverer {
         };
 
         // fresh volatile buffers, persistent image
-        self.sut.bufs.local.fill(0);
-        self.sut.bufs.trees.fill(0);
+        // (volatile memory holds arbitrary bytes after a crash: alternate the filling)
+        let fill = [0u8, 0xff, 0x5a][(self.distinct % 3) as usize];
+        self.sut.bufs.local.fill(fill);
+        self.sut.bufs.trees.fill(fill);
         assert_eq!(lower.len(), self.sut.bufs.lower.len);
         unsafe {
             std::ptr::copy_nonoverlapping(lower.as_ptr(), self.sut.bufs.lower.ptr, lower.len());
